@@ -133,10 +133,14 @@ Proof. intros H1 H2. unfold src_img_controlled_commit, src_img_controlled_result
 Lemma src_img_block_term_offset_eq m tl pos : src_img_block_term_offset m (tl - 1) pos = Ok (term_offset_of_pos tl pos).
 Proof. unfold src_img_block_term_offset, term_offset_of_pos. first [ reflexivity | rewrite Z.land_comm; reflexivity | src_robust ]. Qed.
 
+Lemma satT_i32 z : satT TI32 z = Z.max (- two31) (Z.min (two31 - 1) z).
+Proof. reflexivity. Qed.
+
+(* min(term_offset.saturating_add(block_length_limit), capacity)   (fix 90179aa: the sum saturates) *)
 Lemma src_img_block_limit_offset_eq m tl off blimit :
-  src_img_block_limit_offset m tl off blimit = (s <- add32 m off blimit ;; Ok (Z.min s tl)).
-Proof. unfold src_img_block_limit_offset. cbv zeta. srcT_unfold_ops. cbn [bind]. repeat unify_chk.
-  first [ reflexivity | apply bind_ext; intros s _; first [ reflexivity | rewrite Z.min_comm; reflexivity ] ]. Qed.
+  src_img_block_limit_offset m tl off blimit = Ok (Z.min (sat_add32 off blimit) tl).
+Proof. unfold src_img_block_limit_offset, sat_add32. cbv zeta. rewrite ?satT_i32. cbn [bind].
+  first [ reflexivity | f_equal; src_lia ]. Qed.
 
 Lemma src_img_block_result_eq m pos ro off : in_i32 (ro - off) = true -> in_i64 (pos + (ro - off)) = true ->
   src_img_block_length m ro off = Ok (ro - off) /\
